@@ -4,6 +4,10 @@
 
 mod common;
 
+mod proto;
+mod zoo;
+
+mod c01;
 mod c09;
 
 use common::*;
@@ -22,6 +26,7 @@ fn main() {
     let prop = args.prop.clone();
     // A panic escaping a driver is a harness error (exit 4), never a verdict.
     let r = std::panic::catch_unwind(std::panic::AssertUnwindSafe(|| match prop.as_str() {
+        "C01" => c01::run(&mut ctx),
         "C09" => c09::run(&mut ctx),
         other => {
             eprintln!("unknown property {other}");
